@@ -200,3 +200,36 @@ func TestC11FanOutAcrossReplacedChannels(t *testing.T) {
 }
 
 func sleepShort() { time.Sleep(500 * time.Microsecond) }
+
+// TestC11BacklogBelowQueueAfterOverflow: "nothing is dropped while the channel's backlog stays below its bounded
+// queue" holds whatever happened to the channel before. A link's queue overflows once (allowed to drop), k writes go
+// through and the link stalls again with 64-k items queued; fewer than k items are then written with every flavour of
+// Write*: they fit, and all of them reach the wire in order once the link recovers.
+func TestC11BacklogBelowQueueAfterOverflow(t *testing.T) {
+	rec := evid.New(t, "C11", "2..3 custom transports; one transport blocks until its 64-item queue has overflowed (70..120 items, the other links receive all of them), accepts exactly k = 6..40 writes and blocks again (64-k items queued); k-2-s items (s = 0..2) are written with WriteMessageTo / All / Except(nil) / Except(another channel): the backlog stays below the queue size, so after the recovery the wire must carry every one of them in order; non-trivial = always; distinct by hash of the parameters")
+	rec.Require("items-written-while-the-backlog-is-between-half-full-and-full-after-an-overflow", "written-to-all", "written-with-an-exclusion")
+	evid.Check(t, rec, evid.N(30, 150), func(t *rapid.T) {
+		drawNodeInit(t)
+		nch := rapid.IntRange(2, 3).Draw(t, "nch")
+		over := rapid.IntRange(70, 120).Draw(t, "items_during_the_first_stall")
+		k := rapid.IntRange(6, 40).Draw(t, "writes_accepted_in_between")
+		m := k - 2 - rapid.IntRange(0, 2).Draw(t, "slack")
+		how := rapid.IntRange(0, 3).Draw(t, "write_flavour")
+		desc := fmt.Sprintf("channels=%d overflowItems=%d acceptedInBetween=%d thenWritten=%d flavour=%s", nch, over, k, m, []string{"to", "all", "except-nil", "except-other"}[how])
+		if err := watchdog(scenarioLimit, func() error { return runC13Partial(nch, over, k, m, how) }); err != nil {
+			evid.ReplayNote("C11", "TestC11BacklogBelowQueueAfterOverflow", desc+"\n"+err.Error())
+			t.Fatalf("%s\n%v", desc, err)
+		}
+		cls := []string{"items-written-while-the-backlog-is-between-half-full-and-full-after-an-overflow"}
+		switch how {
+		case 1:
+			cls = append(cls, "written-to-all")
+		case 2, 3:
+			cls = append(cls, "written-with-an-exclusion")
+		}
+		rec.Case(true, evid.HashS(desc), cls...)
+		if rec.WantSample("backlog") {
+			rec.Sample("backlog", desc)
+		}
+	})
+}
